@@ -410,21 +410,28 @@ RESHAPES = {3: [(3,)], 4: [(4,), (2, 2), (-1, 2)], 6: [(6,), (2, 3), (3, 2), (-1
 BASES = ["dense", "sparse", "rle", "brle"]
 
 
-def ops_for(shape):
+def ops_for(shape, reduced=False):
+    """view operations applicable to an encoding of this shape; `reduced` keeps one representative
+    of every kind (each single-axis flip, the all-axes flip, an involution and both 3-cycles,
+    two reshapes, flat)"""
     nd = len(shape)
     size = int(np.prod(shape))
     ops = []
     for k in range(1, nd + 1):
         for ax in itertools.combinations(range(nd), k):
+            if reduced and 1 < k < nd:
+                continue
             ops.append({"op": "flip", "axes": list(ax), "form": "int" if k == 1 else "tuple"})
-    if nd >= 2:
+    if nd >= 2 and not reduced:
         ops.append({"op": "flip", "axes": [-1], "form": "int"})
     for p in itertools.permutations(range(nd)):
         if nd >= 2 and p != tuple(range(nd)):
+            if reduced and p in ((1, 0, 2), (2, 1, 0)):
+                continue
             ops.append({"op": "transpose", "perm": list(p)})
-    for t in RESHAPES[size]:
-        if t != tuple(shape):
-            ops.append({"op": "reshape", "shape": list(t)})
+    targets = [t for t in RESHAPES[size] if t != tuple(shape)]
+    for t in targets[:2] if reduced else targets:
+        ops.append({"op": "reshape", "shape": list(t)})
     ops.append({"op": "flat"})
     return ops
 
@@ -441,16 +448,18 @@ def shape_after(shape, op):
     return (z.size,)
 
 
-def chains_for(shape, depth):
+def chains_for(shape, depth, full_depth):
+    """all chains up to `depth`; levels beyond `full_depth` use the reduced operation set throughout"""
     out = [((), tuple(shape))]
-    frontier = [((), tuple(shape))]
-    for _ in range(depth):
-        nxt = []
-        for ch, s in frontier:
-            for o in ops_for(s):
-                nxt.append((ch + (o,), shape_after(s, o)))
-        out += nxt
-        frontier = nxt
+    for d in range(1, depth + 1):
+        frontier = [((), tuple(shape))]
+        for _ in range(d):
+            nxt = []
+            for ch, s in frontier:
+                for o in ops_for(s, reduced=d > full_depth):
+                    nxt.append((ch + (o,), shape_after(s, o)))
+            frontier = nxt
+        out += frontier
     return out
 
 
@@ -474,21 +483,25 @@ def make_base(enc, kind, arr):
         return enc.SparseEncoding.from_dense(arr)
     flat = arr.reshape((-1,))
     if kind == "rle":
-        e = enc.RunLengthEncoding.from_dense(flat, dtype=arr.dtype.type)
+        e = enc.RunLengthEncoding.from_dense(flat, dtype=bool if arr.dtype == bool else np.int64)
     else:
         e = enc.BinaryRunLengthEncoding.from_dense(flat)
     return e if arr.ndim == 1 else e.reshape(arr.shape)
 
 
-def tree_of(e):
-    out = []
+def tree_of(e, Encoding):
+    """class names of the expression tree, outermost first, and the permutations of its transposed
+    nodes (used only to attribute rejections to a root cause, never for the verdict)"""
+    out, perms = [], []
     for _ in range(12):
         out.append(type(e).__name__)
+        if type(e).__name__ == "TransposedEncoding":
+            perms.append([int(p) for p in e.perm])
         d = getattr(e, "_data", None)
-        if not hasattr(d, "dense") or not hasattr(d, "gather_nd"):
+        if not isinstance(d, Encoding):
             break
         e = d
-    return out
+    return out, perms
 
 
 def do_read(reads, name, extra, f):
@@ -524,7 +537,7 @@ def gen_enc_cases(chunk):
         if max(data) <= 1:
             arr = arr.astype(bool)
         rec = {"fn": "enc", "base": kind, "shape": list(shape), "data": list(data), "chain": list(chain),
-               "vshape": list(vshape), "reads": [], "classes": [], "tree": []}
+               "vshape": list(vshape), "reads": [], "classes": [], "tree": [], "tperms": []}
         try:
             e = make_base(enc, kind, arr)
             rec["classes"].append(type(e).__name__)
@@ -532,7 +545,7 @@ def gen_enc_cases(chunk):
                 e = apply_op(e, o)
                 rec["classes"].append(type(e).__name__)
             rec["exc"] = ""
-            rec["tree"] = tree_of(e)
+            rec["tree"], rec["tperms"] = tree_of(e, enc.Encoding)
         except Exception as ex:  # noqa
             rec["exc"] = type(ex).__name__
             out.append(rec)
@@ -551,13 +564,13 @@ def gen_enc_cases(chunk):
 
         def sv():
             v = np.asarray(e.sparse_values)
-            q = {"v": ints(v), "vshape": [int(s) for s in v.shape]}
-            try:
-                q["idx"] = idx_rows(e.sparse_indices, nd)
-            except Exception:  # noqa
-                pass
-            return q
+            return {"v": ints(v), "vshape": [int(s) for s in v.shape]}
         do_read(R, "sparse_values", {}, sv)
+        try:
+            pairs = {"r": "sparse_pairs", "idx": idx_rows(e.sparse_indices, nd), "v": ints(e.sparse_values), "exc": ""}
+            R.append(pairs)
+        except Exception:  # noqa  (each of the two reads reports its own exception above)
+            pass
         # gathers: all positions in order / reversed, a repeated unsorted triple, a single index
         glists = [allidx, allidx[::-1], [allidx[j] for j in rs.randint(0, size, size=3)], [allidx[-1]]]
         if exh:
@@ -595,34 +608,34 @@ def gen_enc_cases(chunk):
         if nd == 1:
             for dn in ("uint8", "int64"):
                 do_read(R, "rld", {"max": DTMAX[dn], "dtype": dn}, lambda: {"v": ints(e.run_length_data(dtype=DT[dn]))})
-                do_read(R, "brld", {"max": DTMAX[dn], "dtype": dn}, lambda: {"v": ints(e.binary_run_length_data(dtype=DT[dn]))})
+                if max(data) <= 1:
+                    do_read(R, "brld", {"max": DTMAX[dn], "dtype": dn}, lambda: {"v": ints(e.binary_run_length_data(dtype=DT[dn]))})
         out.append(rec)
     return out
 
 
 def encoding_work(tier):
+    """quick: every chain of length <= 1 (all operations) over every array (every other array of the
+    8-element shapes), chains of length 2 over the reduced operation set with a rotating share of
+    the arrays.  thorough: every chain of length <= 2 over every array, length 3 reduced/rotating."""
     big = tier == "thorough"
     depth = 3 if big else 2
+    full = 2 if big else 1
     work = []
     salt = 0
-    chain_cache = {}
     for shape in SHAPES:
         size = int(np.prod(shape))
-        chains = chain_cache.setdefault(shape, chains_for(shape, depth))
+        chains = chains_for(shape, depth, full)
         arrays = list(itertools.product((0, 1), repeat=size))
         for ci, (chain, vshape) in enumerate(chains):
-            # rotation: deep chains over the large shapes meet a rotating share of the arrays
-            # (every chain still meets >= 1/stride of them, every array meets every short chain)
-            stride = 1
-            if len(chain) == 2 and size == 8:
-                stride = 1 if big else 8
-            if len(chain) == 2 and size == 6 and not big:
-                stride = 2
-            if len(chain) == 3:
-                stride = {3: 1, 4: 2, 6: 8, 8: 32}[size]
+            # rotation: every chain meets >= 1/stride of the arrays, every array meets 1/stride of the chains
+            if len(chain) <= full:
+                stride = 1 if (big or size < 8) else 2
+            else:
+                stride = {3: 1, 4: 2, 6: 4, 8: 16}[size] * (2 if big else 1)
             exh = len(chain) <= 1 and size <= 4
             for ai, data in enumerate(arrays):
-                if (ai + ci + seed()) % stride:
+                if (ai + ci + seed()) % stride and 0 < sum(data) < size:
                     continue
                 for kind in BASES:
                     salt += 1
@@ -630,7 +643,7 @@ def encoding_work(tier):
     # integer-valued arrays: dense / sparse / rle, chains of length <= 1
     for shape in [(3,), (2, 2), (1, 2, 2)]:
         size = int(np.prod(shape))
-        for chain, vshape in chains_for(shape, 1) if size in RESHAPES else []:
+        for chain, vshape in chains_for(shape, 1, 1):
             for data in itertools.product((0, 1, 2), repeat=size):
                 if max(data) < 2:
                     continue
@@ -798,45 +811,129 @@ def grid_work(tier):
 
 
 # ------------------------------------------------------------------ attribution of rejections
+# Every deviation below is a root cause found in the unchanged tree (reproducers in the builder's
+# report).  A deviation is named by a predicate on the input (kind of base encoding, classes of the
+# expression tree, data pattern) and the method, plus the outcome the root cause predicts where
+# that is cheap to state.  The functions return the *candidate* deviations of a rejection, most
+# specific first; a rejection with no candidate is a plain violation.  The verdict (reject or not)
+# never depends on anything computed here.
 LAZY = ("FlattenedEncoding", "ShapedEncoding", "TransposedEncoding", "FlippedEncoding")
+RL = ("RunLengthEncoding", "BinaryRunLengthEncoding")
 
 
 def attribute_fn(c, clause):
-    """deviation id (root cause) for a rejected runlength-function record, or None"""
     fn = c["fn"]
     e = c.get("e", [])
     if fn == "brle_reverse" and (len(e) % 2 == 0 or e[-1] == 0) and clause == "denotes_reversed_sequence" \
             and c["res"] == []:
-        return "BrleReverseEvenLength"
+        return ["BrleReverseEvenLength"]       # predicted wrong value: the empty encoding
     if fn == "brle_to_sparse" and len(e) <= 1 and clause == "raised_ValueError":
-        return "BrleToSparseNoTrueRun"
+        return ["BrleToSparseNoTrueRun"]
     if fn == "brle_to_dense" and "vals" in c and clause == "dense_uses_substitute_values":
-        return "BrleToDenseIgnoresVals"
-    if fn in ("rle_gather_1d", "brle_gather_1d") and c.get("form") == "list" and clause in (
-            "raised_ValueError", "out_of_range_index_raises_IndexError") and c["exc"] == "ValueError":
-        return "GatherListIndicesNumpy2"
-    return None
+        return ["BrleToDenseIgnoresVals"]
+    if fn in ("rle_gather_1d", "brle_gather_1d") and c.get("form") == "list" and c["exc"] == "ValueError":
+        return ["GatherListIndicesNumpy2"]     # np.array(list, copy=False) raises under numpy 2
+    return []
+
+
+def construction_taints(rec):
+    """root causes that corrupt the object while the chain of views is being built"""
+    out = []
+    classes, chain = rec["classes"], rec["chain"]
+    cur = list(rec["data"])          # row-major data held by the raw BinaryRunLengthEncoding
+    for k, o in enumerate(chain):
+        if k >= len(classes) or o["op"] != "flip":
+            continue
+        if classes[k] == "BinaryRunLengthEncoding" and "BrleReverseEvenLength" not in out:
+            # brle_reverse: an encoding of even length (data ending in True) comes back empty
+            if cur and cur[-1] == 1:
+                out.append("BrleReverseEvenLength")
+            cur.reverse()
+        elif classes[k] == "FlippedEncoding" and "FlippedFlipAgain" not in out:
+            # FlippedEncoding.flip flips itself again instead of its base
+            out.append("FlippedFlipAgain")
+    return out
 
 
 def attribute_enc(rec, q, clause):
-    """deviation id for a rejected read `q` (None = the tree could not be built) of an expression tree"""
-    tree = rec["tree"]
-    classes = rec["classes"]
-    kind = rec["base"]
-    chain = rec["chain"]
-    data = rec["data"]
+    tree, kind = rec["tree"], rec["base"]
     base_nd = len(rec["shape"])
-    empty = not any(data)
+    empty = not any(rec["data"])
+    taints = construction_taints(rec)
     if q is None:
-        # building the tree failed
-        if clause == "build_raised_RuntimeError" and "FlippedEncoding" in classes and \
-                any(o["op"] == "flip" and classes[k] == "FlippedEncoding" for k, o in enumerate(chain) if k < len(classes)):
-            return "FlippedFlipAgain"
-        return None
+        return taints
     r = q["r"]
-    exc = q["exc"]
-    lazy = [t for t in tree if t in LAZY]
-    return None
+    raised = clause.startswith("raised_")
+    c = []
+    involution = lambda p: all(p[p[a]] == a for a in range(len(p)))  # noqa
+    if r == "get_value":
+        if tree[0] in LAZY and raised:
+            c.append("LazyViewGetValue")
+        if tree[0] == "SparseEncoding" and clause == "raised_AttributeError":
+            c.append("SparseGetValue")
+    if r == "mask":
+        for k, t in enumerate(tree):
+            if t == "TransposedEncoding":
+                c.append("TransposedMask")
+            elif t == "FlippedEncoding":
+                c.append("FlippedMask")
+            elif t == "ShapedEncoding" and tree[k + 1] not in RL:
+                c.append("ShapedMaskFlatiter")
+            elif t == "SparseEncoding":
+                c.append("SparseMask")
+    if r in ("gather_nd", "sparse_indices", "sparse_pairs"):
+        if "FlippedEncoding" in tree:
+            c.append("FlippedToBaseIndices")
+        if any(not involution(p) for p in rec["tperms"]):
+            c.append("TransposedIndexMapsSwapped")
+    if r == "gather_nd" and kind == "brle" and len(q["arg"]) == 1 and raised:
+        c.append("BrleGatherNdSqueeze")
+    if r == "gather" and q.get("form") == "list" and tree[0] in RL and clause == "raised_ValueError":
+        c.append("GatherListIndicesNumpy2")
+    if r in ("sparse_indices", "sparse_pairs") and raised:
+        if kind == "brle" and empty:
+            c.append("BrleToSparseNoTrueRun")
+        if kind == "rle" and empty and tree[0] in LAZY:
+            c.append("RleToSparseEmptyReturnsLists")
+        if len(tree) >= 2 and tree[-2] == "FlattenedEncoding" and tree[-1] in RL:
+            c.append("RunLengthSparseIndicesRank1")
+    if r in ("sparse_values", "sparse_pairs") and kind == "dense":
+        c.append("DenseSparseValues")
+    if r == "stripped":
+        if tree[0] == "SparseEncoding" and not empty and clause == "stripped_padding":
+            c.append("SparseStrippedPadRight")
+        if tree[0] == "BinaryRunLengthEncoding" and not empty:
+            c.append("BrleStrippedUsesRleStrip")
+    if r == "brld" and kind == "rle" and tree[0] in LAZY and clause == "raised_ValueError" and \
+            any(o["op"] == "flip" and rec["classes"][k] == "RunLengthEncoding" for k, o in enumerate(rec["chain"])):
+        c.append("RleFlipDropsDtype")
+    if kind == "sparse" and base_nd != 3 and clause == "raised_AssertionError":
+        c.append("SparseNon3D")
+    return c + taints
+
+
+def attribute_grid(c, clause):
+    if c["fn"] == "grid_volume" and clause == "volume_is_filled_count_times_cell_volume":
+        M = np.array(c["M4"], dtype=np.int64)
+        if round(np.linalg.det(M)) < 0 and c.get("vol64", 0) < 0:
+            return ["VolumeSignedDeterminant"]      # predicted: the negated volume
+    if c["fn"] == "grid_binvox":
+        if c["axis_order"] == "xzy" and c["shape"][1] != c["shape"][2] and clause == "raised_AssertionError":
+            return ["BinvoxNonCubicXzyAssert"]
+        if c.get("via") == "sparse_indices" and not any(c["data"]) and clause == "raised_TypeError":
+            return ["RleToSparseEmptyReturnsLists"]
+    return []
+
+
+def report(V, name, clause, detail, cands):
+    """attribute to the first candidate that is a listed known finding, else to the first candidate"""
+    for d in cands:
+        if d in V.known:
+            V.violation(f"{name}:{clause}", detail, d)
+            return d
+    d = cands[0] if cands else None
+    V.violation(f"{name}:{clause}", detail, d)
+    return d
 
 
 # ------------------------------------------------------------------ main
@@ -878,13 +975,14 @@ def main(argv):
         byfn[c["fn"]] = byfn.get(c["fn"], 0) + 1
         reads += len(c.get("reads", ()))
     by_dev = {}
+    unattributed, unattributed_examples = {}, []
     for cid, clause in sorted(rejects.items()):
         if cid not in owner:
             raise MachineryError(f"TLC rejected unknown id {cid}")
         c, q = owner[cid]
         if c["fn"] == "enc":
             dev = attribute_enc(c, q, clause)
-            detail = {k: c[k] for k in ("base", "shape", "data", "chain", "tree")}
+            detail = {k: c[k] for k in ("base", "shape", "data", "chain", "tree", "exc")}
             name = "enc.build" if q is None else "enc." + q["r"]
             if q is not None:
                 detail["read"] = q
@@ -892,8 +990,13 @@ def main(argv):
             dev = attribute_fn(c, clause) if c["fn"] not in ("grid_maps", "grid_volume", "grid_binvox") else attribute_grid(c, clause)
             detail = {k: v for k, v in c.items() if k != "id"}
             name = c["fn"]
+        dev = report(V, name, clause, detail, dev)
         by_dev[dev or "-"] = by_dev.get(dev or "-", 0) + 1
-        V.violation(f"{name}:{clause}", detail, dev)
+        if dev is None:
+            key = f"{name}:{clause}"
+            unattributed[key] = unattributed.get(key, 0) + 1
+            if len(unattributed_examples) < 12 and unattributed[key] == 1:
+                unattributed_examples.append({"clause": key, "detail": detail})
     cov = {
         "states": states, "transitions": states,
         "traces_validated_against_impl": len(cases),
@@ -904,6 +1007,8 @@ def main(argv):
         "cases_per_function": byfn,
         "rejected": len(rejects),
         "rejected_by_deviation": by_dev,
+        "unattributed_clauses": unattributed,
+        "unattributed_examples": unattributed_examples,
         "exhaustive": True,
         "tlc_wall_s": round(wall, 1),
         "samples": [strip_sample(cases[n_fn // 3]), strip_sample(cases[n_fn - 1]), strip_sample(enc_cases[len(enc_cases) // 2]),
@@ -917,10 +1022,6 @@ def main(argv):
         "order of sparse_indices is not part of the contract; result dtypes are not compared (values only)",
         "zero-length arrays, negative gather indices and the padding of an all-zero sequence under rle_strip/brle_strip are left unconstrained",
     ])
-
-
-def attribute_grid(c, clause):
-    return None
 
 
 def strip_sample(c):
